@@ -124,7 +124,7 @@ func runR078(c *core.Ctx) {
 			as, _ := n.(*ast.AssignStmt)
 			for o := range usesOf(n, as) {
 				if st&(1<<uint(idx[o])) != 0 {
-					problems = append(problems, fmt.Sprintf("%s: %s was computed from the path before the path was advanced and is used here without being recomputed", c.M.Position(n.Pos()), o.Name()))
+					problems = append(problems, fmt.Sprintf("%s: %s was computed from the path before the path was advanced and is used here without being recomputed", c.M.Position(n.Pos()), core.NameOf(o)))
 				}
 			}
 			if as != nil {
